@@ -246,3 +246,26 @@ Definition check_scenario (names : list string) (m : mesh) (ops : list op) (file
   match init m with Some w => run_check names w ops files | None => [(-1)%Z] end.
 (* without the model: only the reader's diagnosis of a file *)
 Definition diag_words (names : list string) (f : list string) : list Z := seg (diag (lex_file names f)).
+
+(* ---------------------------------------------------------------- a numeric word read AT THE DECLARED DATA TYPE of its array
+   An integer data type admits only integer literals (no '.', no exponent) within the range of the type; `float` words are
+   rounded to binary32, `double` words to binary64. *)
+Definition int_range (d : dtype) : option (Z * Z) :=
+  match d with
+  | BIT => Some (0, 1) | UCHAR => Some (0, 255) | CHAR => Some (-128, 127)
+  | USHORT => Some (0, 65535) | SHORT => Some (-32768, 32767)
+  | UINT => Some (0, 4294967295) | INT => Some (-2147483648, 2147483647)
+  | ULONG => Some (0, 18446744073709551615) | LONG => Some (-9223372036854775808, 9223372036854775807)
+  | FLOAT | DOUBLE => None
+  end%Z.
+Definition read_at (d : dtype) (s : string) : option val :=
+  match int_range d with
+  | Some (lo, hi) => match read_int s with
+                     | Some z => if (lo <=? z)%Z && (z <=? hi)%Z then Some (z, 1%positive) else None
+                     | None => None
+                     end
+  | None => match d with
+            | FLOAT => read_num32 s
+            | _ => match read_dec s with Some me => round_b64 (dec_val me) | None => None end
+            end
+  end.
